@@ -8,6 +8,7 @@
 cd "$(dirname "$0")/.." || exit 2
 HERE=$(pwd)
 PAT=${1:-}
+ONLY=${ONLY:-}
 JOBS=${2:-4}
 PROPS="C01 C02 C04 C05 C06 C07 C08 C13 C14 C18 C19"
 WORK=$(mktemp -d /tmp/pcsens.XXXXXX)
@@ -47,6 +48,12 @@ for patch in selftest/mutants/*.patch selftest/benign/*.patch seeded/*/patch.dif
         *) name=$(basename "$patch" .patch) ;;
     esac
     case "$name" in *"$PAT"*) ;; *) continue ;; esac
+    # ONLY=mutants|benign|seeded restricts the run to one corpus
+    case "${ONLY:-}" in
+        mutants) case "$patch" in selftest/mutants/*) ;; *) continue ;; esac ;;
+        benign) case "$patch" in selftest/benign/*) ;; *) continue ;; esac ;;
+        seeded) case "$patch" in seeded/*) ;; *) continue ;; esac ;;
+    esac
     one "$HERE/$patch" "$name" &
     n=$((n+1))
     if [ $((n % JOBS)) -eq 0 ]; then wait; fi
@@ -54,7 +61,7 @@ done
 wait
 # report
 OUT=selftest/sensitivity_matrix.txt
-[ -n "$PAT" ] && OUT="$WORK/matrix.txt"
+[ -n "$PAT$ONLY" ] && OUT="$WORK/matrix.txt"
 {
 echo "# mutant | meant to break | checks that reported a violation (exit 1) | missed | harness errors (exit 2)"
 rc_all=0
